@@ -415,7 +415,7 @@ class BoundedUnit(Unit):
             done += 1
             if r is not None:
                 fails.append(_jsonable(r))
-                if len(fails) >= 3:
+                if len(fails) >= 200:
                     break
         return {'unit': self.label(), 'functions': [], 'obligations': [], 'notes': [], 'validation': None,
                 'native': None, 'bounded': {'name': self.name, 'what': self.what, 'samples': done,
@@ -445,7 +445,12 @@ def _discharge_index(i):
     ui, ob, fals = _PENDING[i]
     if os.environ.get('PYVC_TRACE'):
         print('  start %s' % ob.name, file=sys.stderr, flush=True)
+        import faulthandler
+        faulthandler.dump_traceback_later(int(os.environ.get('PYVC_FAULT_S', '150')), exit=False)
     r = D.discharge(ob)
+    if os.environ.get('PYVC_TRACE'):
+        import faulthandler
+        faulthandler.cancel_dump_traceback_later()
     if os.environ.get('PYVC_TRACE'):
         print('  done  %s %s %.1fs' % (ob.name, r['status'], r.get('seconds', 0)), file=sys.stderr, flush=True)
     r['path'] = ob.path
@@ -501,9 +506,16 @@ def run_property(prop, units, tier, seed, level='proof', assumptions=(), trusted
             _PENDING.append((ui, ob, fals))
     # phase B (forked workers inherit the obligations): one task per obligation
     if procs > 1 and len(_PENDING) > 1:
-        ctxm = mp.get_context('fork')
-        with ctxm.Pool(min(procs, len(_PENDING))) as pool:
-            done = pool.map(_discharge_index, range(len(_PENDING)), chunksize=1)
+        from . import pool as _pool
+        raw = _pool.run(len(_PENDING), _discharge_index, procs, int(os.environ.get('PYVC_TASK_TIMEOUT_S', '420')))
+        done = []
+        for i, rr in enumerate(raw):
+            if isinstance(rr, dict) and 'crashed' in rr:
+                ui, ob, _f = _PENDING[i]
+                done.append((ui, {'name': ob.name, 'kind': ob.kind, 'status': 'unknown', 'backend': '', 'seconds': 0.0,
+                                  'detail': 'solver worker failed: %s' % rr['crashed'], 'model': None, 'path': ob.path}))
+            else:
+                done.append(rr)
     else:
         done = [_discharge_index(i) for i in range(len(_PENDING))]
     for ui, r in done:
@@ -635,13 +647,20 @@ def report(prop, results, tier, seed, level, assumptions, trusted, bounded, t0, 
             continue
         bounded.append({'name': b['name'], 'what': b['what'], 'bound': '%d random samples (seed %d)' % (b['samples'], seed),
                         'failures': len(b['failures'])})
-        for fl in b['failures'][:1]:
+        b = dict(b)
+        reported_known, reported_new = set(), 0
+        for fl in b['failures']:
             name = r['unit']
             kf = match_known(known, name, fl if isinstance(fl, dict) else None)
             if kf is not None:
-                known_seen.append(kf)
-                lines.append('KNOWN-FINDING: property=%s %s -- %s' % (prop, name, kf.get('what', '')))
+                if kf.get('id') not in reported_known:
+                    reported_known.add(kf.get('id'))
+                    known_seen.append(kf)
+                    lines.append('KNOWN-FINDING: property=%s %s -- %s' % (prop, name, kf.get('what', '')))
                 continue
+            reported_new += 1
+            if reported_new > 1:
+                continue          # one VIOLATION line (with replay) per stand-in is enough
             replay = os.path.join('replays', prop, _safe(name) + '.json')
             with open(os.path.join(OUT, replay), 'w') as fh:
                 json.dump({'property': prop, 'obligation': name, 'verdict': 'bounded stand-in failed on the real code',
